@@ -116,7 +116,7 @@ def rt_type(v):
         return 'Box'
     if t is StringV:
         return 'String'
-    if t is str or t is AbsStr:
+    if t is str or issubclass(t, AbsStr):
         return '&str'
     if t is PathV:
         return 'PathBuf'
@@ -455,6 +455,7 @@ class Interp:
         self._const_cache = {}
         self.call_depth = 0
         self.trace_calls = False
+        self.frames = []        # per activation: {closure span: [created closure values not yet consumed]}
 
     # -- solver --------------------------------------------------------------------------------
     def assume(self, c):
@@ -581,7 +582,7 @@ class Interp:
                 return v.lst, v.idx
             if t is BoxV:
                 return v.cell, 0
-            if t is str or t is AbsStr:
+            if t is str or issubclass(t, AbsStr):
                 return lst, i     # *&str  -> str (unsized); treat as the same value
             if t is Choice:
                 v = self.concretize(v)
@@ -649,13 +650,42 @@ class Interp:
         return op[2]
 
     def const_path(self, name):
-        v = self._const_cache.get(name)
+        v = self._const_cache.get(name) if not name.startswith('ZeroSized: {closure@') else None
         if v is not None:
             return v
+        nm = name.strip()
+        if nm.startswith('(') and nm.endswith(')') and match_close(nm, 0) == len(nm) - 1:
+            parts = split_top(nm[1:-1])
+            if parts and parts[-1] == '':
+                parts = parts[:-1]
+            from mir import parse_const
+            vals = []
+            for p_ in parts:
+                c = parse_const(p_)
+                vals.append(self.operand([], c))
+            return Tup(vals)
+        hook = self.env.get('const_hook')
+        if hook is not None:
+            hv = hook(self, name)
+            if hv is not None:
+                if type(hv).__name__ == 'NoCache':
+                    return hv.v
+                self._const_cache[name] = hv
+                return hv
         if name.startswith('ZeroSized: {closure@'):
-            v = Closure(name[12:-1], [])
-            self._const_cache[name] = v
-            return v
+            # a closure whose captures are all zero-sized is printed as a constant; its captured values
+            # (fn items / other such closures) are those of the closure of this type created last in this
+            # activation (FIFO among the not yet consumed ones)
+            sp = name[12:-1]
+            fr = self.frames[-1] if self.frames else None
+            if fr is not None:
+                q = fr.get(sp)
+                if q:
+                    v = q[0]
+                    if len(q) > 1:
+                        q.pop(0)
+                    return v
+            return Closure(sp, [])
         if name.startswith('ZeroSized: '):
             name2 = name[11:]
             v = FnItem(name2)
@@ -790,7 +820,7 @@ class Interp:
             # &(*_x) where _x: &str  -> the str itself
             lst, i = self.loc(L, p)
             v = lst[i]
-            if type(v) is str or type(v) is AbsStr:
+            if type(v) is str or isinstance(v, AbsStr):
                 return v
             return Ref(lst, i)
         if k == 'bin':
@@ -893,6 +923,7 @@ class Interp:
             raise Inconclusive('arity mismatch calling %s' % f.name)
         ltypes = f.locals
         bb = 0
+        self.frames.append({})
         self.call_depth += 1
         if self.call_depth > 3000:
             raise RustPanic('unbounded recursion: MIR call depth > 3000 (stack exhaustion) in %s' % f.name)
@@ -958,6 +989,8 @@ class Interp:
                         r = self.call_value(fv, args2)
                     if ret is None:
                         raise Inconclusive('diverging call returned: %s' % (callee,))
+                    if type(r) is Closure:
+                        self.frames[-1].setdefault(r.span, []).append(r)
                     if dest[0] == 'local':
                         L[dest[1]] = r
                     else:
@@ -984,6 +1017,7 @@ class Interp:
                     raise Inconclusive('terminator %s' % k)
         finally:
             self.call_depth -= 1
+            self.frames.pop()
 
     def call_value(self, fv, args):
         """call a closure / fn item value"""
@@ -1038,7 +1072,7 @@ class Explorer:
     def run(self):
         work = [[]]
         while work:
-            if len(self.results) >= self.max_paths:
+            if len(self.results) >= self.max_paths or (getattr(self, 'deadline', None) and time.time() > self.deadline):
                 self.truncated = True
                 break
             prefix = work.pop()
